@@ -13,21 +13,63 @@ import (
 // context deadlines are delivered only when the harness says so (fireOne), one
 // at a time, so that every wake-up of a goroutine inside the SuspendableClock
 // is a separate, ordered event.
+//
+// A timer that becomes due at its stamp T may be delivered late (lateFn): the
+// value T sits in the channel - in reality: the goroutine is waiting for
+// c.lock or is not scheduled - while the harness goes on executing
+// suspend/resume/cancel operations and advancing time; only at T+late the
+// goroutine receives the (stale) value T. The same holds for deadlines of
+// base contexts.
+//
+// Every base timer / base context is attributed to the SuspendableClock
+// context or timer ("owner") on whose behalf it was created: the harness sets
+// owner before it calls into the clock, and fireOne sets it to the owner of the
+// item it delivers (only that owner's goroutine runs until the next
+// synctest.Wait).
 type fakeClock struct {
 	mu     sync.Mutex
 	now    int64
 	timers []*fakeTimer
 	ctxs   []*fakeCtx
 
+	owner   string
+	owners  map[string]*ownerRec
+	lateFn  func() int64 // lateness of the next base timer / deadline
+	posFn   func() int   // number of Suspend/Resume calls issued so far
+	gaps    []*fakeTimer // every loop timer ever created (for the monitor)
+	orphans int
+
 	timersCreated int
 }
 
+// delivery is one expiry of a loop timer of an owner.
+type delivery struct {
+	stamp, late int64
+	delivered   bool
+	at          int64
+	pos         int
+}
+
+type ownerRec struct {
+	dlSet       bool
+	dlStamp     int64 // deadline of the base context / stamp of maximumSuspensionTimer
+	dlLate      int64
+	dlDelivered bool
+	dlPre       bool // deadline delivered while a loop timer was due for delivery at the same instant
+	deliveries  []*delivery
+}
+
 type fakeTimer struct {
-	c       *fakeClock
-	expiry  int64
-	ch      chan time.Time
-	stopped bool
-	fired   bool
+	c         *fakeClock
+	owner     string
+	expiry    int64 // stamp
+	deliverAt int64
+	ch        chan time.Time
+	stopped   bool
+	fired     bool
+	endAt     int64 // delivery or Stop instant, -1 while pending
+	deadline  bool  // maximumSuspensionTimer of a SuspendableClock timer
+	dv        *delivery
 }
 
 func (t *fakeTimer) Stop() bool {
@@ -37,15 +79,18 @@ func (t *fakeTimer) Stop() bool {
 		return false
 	}
 	t.stopped = true
+	t.endAt = t.c.now
 	return true
 }
 
 type fakeCtx struct {
-	c        *fakeClock
-	parent   context.Context
-	deadline int64
-	done     chan struct{}
-	err      error
+	c         *fakeClock
+	owner     string
+	parent    context.Context
+	deadline  int64
+	deliverAt int64
+	done      chan struct{}
+	err       error
 }
 
 func (x *fakeCtx) Deadline() (time.Time, bool) { return time.Unix(0, x.deadline), true }
@@ -78,10 +123,52 @@ func (c *fakeClock) nowTicks() int64 {
 	return c.now
 }
 
+func (c *fakeClock) setOwner(o string) {
+	c.mu.Lock()
+	c.owner = o
+	c.mu.Unlock()
+}
+
+// rec returns the record of the current owner (mu held).
+func (c *fakeClock) rec() *ownerRec {
+	if c.owners == nil {
+		c.owners = map[string]*ownerRec{}
+	}
+	r := c.owners[c.owner]
+	if r == nil {
+		r = &ownerRec{}
+		c.owners[c.owner] = r
+	}
+	return r
+}
+
+func (c *fakeClock) late() int64 {
+	if c.lateFn == nil {
+		return 0
+	}
+	return c.lateFn()
+}
+
 func (c *fakeClock) NewTimer(d time.Duration) (clock.Timer, <-chan time.Time) {
 	c.mu.Lock()
 	defer c.mu.Unlock()
-	t := &fakeTimer{c: c, expiry: c.now + int64(d), ch: make(chan time.Time, 1)}
+	t := &fakeTimer{c: c, owner: c.owner, expiry: c.now + int64(d), ch: make(chan time.Time, 1), endAt: -1}
+	late := c.late()
+	t.deliverAt = t.expiry + late
+	if c.owner == "" {
+		c.orphans++
+	} else {
+		r := c.rec()
+		if c.owner[0] == 't' && !r.dlSet {
+			// first base timer of a SuspendableClock timer: maximumSuspensionTimer
+			t.deadline = true
+			r.dlSet, r.dlStamp, r.dlLate = true, t.expiry, late
+		} else {
+			t.dv = &delivery{stamp: t.expiry, late: late}
+			r.deliveries = append(r.deliveries, t.dv)
+			c.gaps = append(c.gaps, t)
+		}
+	}
 	c.timers = append(c.timers, t)
 	c.timersCreated++
 	return t, t.ch
@@ -89,7 +176,15 @@ func (c *fakeClock) NewTimer(d time.Duration) (clock.Timer, <-chan time.Time) {
 
 func (c *fakeClock) NewContextWithTimeout(parent context.Context, d time.Duration) (context.Context, context.CancelFunc) {
 	c.mu.Lock()
-	x := &fakeCtx{c: c, parent: parent, deadline: c.now + int64(d), done: make(chan struct{})}
+	x := &fakeCtx{c: c, owner: c.owner, parent: parent, deadline: c.now + int64(d), done: make(chan struct{})}
+	late := c.late()
+	x.deliverAt = x.deadline + late
+	if c.owner == "" {
+		c.orphans++
+	} else {
+		r := c.rec()
+		r.dlSet, r.dlStamp, r.dlLate = true, x.deadline, late
+	}
 	c.ctxs = append(c.ctxs, x)
 	c.mu.Unlock()
 	if parent.Done() != nil {
@@ -106,27 +201,37 @@ func (c *fakeClock) NewTicker(d time.Duration) (clock.Ticker, <-chan time.Time) 
 	panic("fakeClock.NewTicker is not used by C11")
 }
 
-// nextDue returns the earliest instant at which something is pending.
+// nextDue returns the earliest instant at which something is to be delivered.
 func (c *fakeClock) nextDue() (int64, bool) {
 	c.mu.Lock()
 	defer c.mu.Unlock()
 	var best int64
 	ok := false
 	for _, t := range c.timers {
-		if !t.stopped && !t.fired && (!ok || t.expiry < best) {
-			best, ok = t.expiry, true
+		if !t.stopped && !t.fired && (!ok || t.deliverAt < best) {
+			best, ok = t.deliverAt, true
 		}
 	}
 	for _, x := range c.ctxs {
-		if x.err == nil && (!ok || x.deadline < best) {
-			best, ok = x.deadline, true
+		if x.err == nil && (!ok || x.deliverAt < best) {
+			best, ok = x.deliverAt, true
 		}
 	}
 	return best, ok
 }
 
-// fireOne delivers one timer expiry or context deadline that is due at the
-// current instant, chosen by pick among the due ones; false if nothing is due.
+// pendingTie reports whether owner has a loop timer waiting for delivery at the current instant (mu held).
+func (c *fakeClock) pendingTie(owner string) bool {
+	for _, t := range c.timers {
+		if t.owner == owner && !t.deadline && !t.stopped && !t.fired && t.deliverAt <= c.now {
+			return true
+		}
+	}
+	return false
+}
+
+// fireOne delivers one timer expiry or context deadline that is to be delivered
+// at the current instant, chosen by pick among them; false if there is none.
 func (c *fakeClock) fireOne(pick func(n int) int) bool {
 	c.mu.Lock()
 	var dueT []*fakeTimer
@@ -137,7 +242,7 @@ func (c *fakeClock) fireOne(pick func(n int) int) bool {
 			continue
 		}
 		keep = append(keep, t)
-		if t.expiry <= c.now {
+		if t.deliverAt <= c.now {
 			dueT = append(dueT, t)
 		}
 	}
@@ -148,7 +253,7 @@ func (c *fakeClock) fireOne(pick func(n int) int) bool {
 			continue
 		}
 		keepC = append(keepC, x)
-		if x.deadline <= c.now {
+		if x.deliverAt <= c.now {
 			dueC = append(dueC, x)
 		}
 	}
@@ -162,11 +267,27 @@ func (c *fakeClock) fireOne(pick func(n int) int) bool {
 	if i < len(dueT) {
 		t := dueT[i]
 		t.fired = true
+		t.endAt = c.now
+		c.owner = t.owner
+		if t.deadline {
+			if r := c.owners[t.owner]; r != nil {
+				r.dlDelivered, r.dlPre = true, c.pendingTie(t.owner)
+			}
+		} else if t.dv != nil {
+			t.dv.delivered, t.dv.at = true, c.now
+			if c.posFn != nil {
+				t.dv.pos = c.posFn()
+			}
+		}
 		c.mu.Unlock()
 		t.ch <- time.Unix(0, t.expiry)
 		return true
 	}
 	x := dueC[i-len(dueT)]
+	c.owner = x.owner
+	if r := c.owners[x.owner]; r != nil {
+		r.dlDelivered, r.dlPre = true, c.pendingTie(x.owner)
+	}
 	c.mu.Unlock()
 	x.finish(context.DeadlineExceeded)
 	return true
